@@ -202,9 +202,23 @@ InlineCall(p, pat, ctx) ==
                 THEN IF Cmp3("==", acc[x], pat[i][3]) = "t" THEN Pre(idx \ {i}, acc) ELSE <<>>
                 ELSE Pre(idx \ {i}, Bind(acc, x, pat[i][3]))   \* substitution: also for null
       pre == Pre(PreIdx, EmptyB)
-      sols == Solve(r.body, pre, V, ctx)
+      \* P(x, x) with x unbound: the caller's variable is the output of one
+      \* argument and the value of a parameter (a head variable the body cannot
+      \* bind).  Substitution makes the parameter an alias of that output.
+      IsParamAt(i) == /\ HeadExprOf(r, pat[i][1]).k = "var"
+                      /\ HeadExprOf(r, pat[i][1]).name \notin BindableBody(r.body)
+      Partners(i) == {j \in 1..Len(pat) : j # i /\ pat[j][2] = "u" /\ pat[j][3] = pat[i][3]
+                                           /\ ~IsParamAt(j)}
+      LateIdx == {i \in 1..Len(pat) : pat[i][2] = "u" /\ IsParamAt(i) /\ Partners(i) # {}}
+      aliases == SetToSortSeq(LateIdx, LAMBDA a, b : a < b)
+      extra == [k \in 1..Len(aliases) |->
+                  LET i == aliases[k]
+                      j == CHOOSE j \in Partners(i) : \A l \in Partners(i) : j <= l
+                  IN [k |-> "unify", l |-> HeadExprOf(r, pat[i][1]),
+                      r |-> HeadExprOf(r, pat[j][1])]]
+      sols == Solve(r.body \o extra, pre, V, ctx)
       \* the arguments that were not substituted are evaluated and matched
-      rest == SelectSeq([i \in 1..Len(pat) |-> IF i \in PreIdx THEN <<>> ELSE pat[i]],
+      rest == SelectSeq([i \in 1..Len(pat) |-> IF i \in PreIdx \cup LateIdx THEN <<>> ELSE pat[i]],
                         LAMBDA a : a # <<>>)
       Finish(s) ==
         LET hv == Cross([i \in 1..Len(rest) |-> EvalM(HeadExprOf(r, rest[i][1]), s, V, ctx)])
